@@ -18,8 +18,8 @@ package main
 // (Rtmp2MpegtsRemuxer.Dispose, hls.Muxer.Dispose).  hls.Clock shows the index of the
 // current event (ms); the HLS files go to a recording in-memory file-system layer.
 //
-// output: ts<id>=<bytes after the HTTP response header> | hls=<segment>,<segment>,... (file
-// contents in creation order) | sdp<id>=<bytes> rtp<id>=<channel>.<packet>,...  with sequence
+// output: ts<id>=<bytes after the HTTP response header> | hlsops=<op>;<op>;... (every call of hls.Muxer on the
+// file system layer, format of c10.run) | sdp<id>=<bytes> rtp<id>=<channel>.<packet>,...  with sequence
 // numbers relative to the first packet the subscriber got on the track and SSRC zeroed.
 
 import (
@@ -205,29 +205,12 @@ func init() {
 			}
 		}
 		if boolTok(cf[1]) {
-			// segment files in creation order, their contents from the recorded writes
-			var order []string
-			content := map[string][]byte{}
-			for _, l := range fsl.log {
-				f := strings.SplitN(l, ":", 3)
-				if f[0] == "cr" && strings.HasSuffix(f[1], ".ts") {
-					order = append(order, f[1])
-					content[f[1]] = nil
-				}
-				if f[0] == "wr" {
-					if _, ok := content[f[1]]; ok {
-						content[f[1]] = append(content[f[1]], bytesTok(f[2])...)
-					}
-				}
+			// every call hls.Muxer made on the file system layer, in order (segment writes, play lists, renames)
+			ops := "none"
+			if len(fsl.log) > 0 {
+				ops = strings.Join(fsl.log, ";")
 			}
-			var segs []string
-			for _, n := range order {
-				segs = append(segs, hexOf(content[n]))
-			}
-			if len(segs) == 0 {
-				segs = []string{"none"}
-			}
-			parts = append(parts, "hls="+strings.Join(segs, ","))
+			parts = append(parts, "hlsops="+ops)
 		}
 		sort.Slice(rtspSubs, func(i, j int) bool { return rtspSubs[i].id < rtspSubs[j].id })
 		for _, r := range rtspSubs {
